@@ -587,6 +587,10 @@ class Evaluator:
                     return getattr(v, e.attr)
                 except AttributeError:
                     raise _Raise('AttributeError')
+            if isinstance(v, (str, bytes, list, dict, set, frozenset, tuple)) and hasattr(v, e.attr):
+                return getattr(v, e.attr)  # a bound method of a built-in value, used as a callable
+            if v is None or isinstance(v, (bool, int, float)):
+                raise _Raise('AttributeError')  # None (and numbers) have none of the attributes the code asks for
             raise AnalysisError(f'unsupported attribute access {text(e)}')
         if isinstance(e, ast.Call):
             try:
@@ -681,6 +685,13 @@ class Evaluator:
                     return getattr(recv, f.attr)(*args, **kwargs)
                 if isinstance(recv, Record) and recv is env.get('self') and isinstance(self._class_member(f.attr), ast.FunctionDef):
                     return self.call_function(self._class_member(f.attr), args, kwargs, bound_self=recv)
+                if isinstance(recv, Record) and recv is env.get('self') and isinstance(self._class_member(f.attr), ast.Assign):
+                    mem = self._class_member(f.attr)
+                    if isinstance(mem.value, ast.Lambda):
+                        return self.call_function(mem.value, [recv] + args, kwargs)
+                    fv = self.expr(mem.value, {})  # a callable stored as class attribute (e.g. the match method of a pattern)
+                    if callable(fv):
+                        return fv(*args, **kwargs)
                 if isinstance(f.value, ast.Name) and self.cls and f.value.id == self.cls and isinstance(self._class_member(f.attr), ast.FunctionDef):
                     return self.call_function(self._class_member(f.attr), args, kwargs)
                 if isinstance(recv, list) and f.attr in ('append', 'extend', 'sort', 'insert', 'pop', 'remove', 'reverse', 'clear', 'copy') or isinstance(recv, dict) and f.attr in ('update', 'copy', 'pop', 'setdefault', 'clear') or isinstance(recv, (set, frozenset)) and f.attr in ('add', 'discard', 'union', 'copy', 'intersection', 'difference', 'issubset', 'isdisjoint', 'update', 'remove', 'clear', 'issuperset'):
